@@ -13,6 +13,7 @@
   Model: `Hv/Conc/Claim.lean`.
 -/
 import Hv.Conc.ClaimLemmas
+import Hv.Conc.LockOrder
 import Hv.Basic.Verdict
 
 namespace Hv.C11
@@ -259,6 +260,198 @@ theorem refutes_of_findings (c : Cfg) (h : findings c ≠ []) : ¬ Holds c := by
       rw [List.pairwise_cons] at hd
       exact hd.1 y (by simp) (by rw [ho'.1, ho'.2.1])
 
+/-! ### deadlock freedom (beacon locks and record guards)
+
+  Locks: `0` the lock of the index beacon a selection pass walks (expiration / value / bucket index),
+  `1` the lock of the key index, `k + 2` the guard of record `k`.  Request kinds, as lock programs:
+
+  * `claim ks`   ShiftExpired / ShiftMatching over the indexed records `ks`: takes lock 0 and, per record, the
+                 guard.  `waitsUnderLock`: it *waits* for the guard (`StartTreasureGuard(true)`); otherwise it
+                 only tries (`StartTreasureGuard(false)`, a busy record is skipped).
+  * `clone ks`   CloneUnorderedTreasures (GetAll, first build of a field bucket): lock 1, per record the guard;
+                 `waitsUnderLock` as above, otherwise the list is taken under lock 1 and the records are cloned
+                 after it was released.
+  * `delete k`   deleteHandler: guard of `k`, and — `beaconUnderGuard` — the key index and the index beacons are
+                 updated while the guard is held; otherwise after it was released.
+  * `save k`     a Save that (re-)indexes the record: guard of `k`, then lock 0, nested the same way.
+
+  Two consistent orders exist: guard → beacon lock (no pass waits for a guard under a beacon lock) and beacon lock
+  → guard (no guard holder touches a beacon).  The code before the repair mixed them. -/
+
+structure LockCfg where
+  waitsUnderLock : Bool
+  beaconUnderGuard : Bool
+  deriving DecidableEq, Repr
+
+inductive Req where
+  | claim (ks : List Nat)
+  | clone (ks : List Nat)
+  | delete (k : Nat)
+  | save (k : Nat)
+  | idle
+  deriving Repr
+
+open Hv.LockOrder in
+def passBody (wait : Bool) : List Nat → List Op
+  | [] => []
+  | k :: ks => (if wait then Op.acq (k + 2) else Op.try (k + 2) 1) :: Op.rel (k + 2) :: passBody wait ks
+
+open Hv.LockOrder in
+def guardEach : List Nat → List Op
+  | [] => []
+  | k :: ks => Op.acq (k + 2) :: Op.rel (k + 2) :: guardEach ks
+
+open Hv.LockOrder in
+def prog (c : LockCfg) : Req → List Op
+  | .claim ks => Op.acq 0 :: (passBody c.waitsUnderLock ks ++ [Op.rel 0])
+  | .clone ks => if c.waitsUnderLock then Op.acq 1 :: (passBody true ks ++ [Op.rel 1])
+                 else Op.acq 1 :: Op.rel 1 :: guardEach ks
+  | .delete k => if c.beaconUnderGuard then [.acq (k + 2), .acq 1, .rel 1, .acq 0, .rel 0, .rel (k + 2)]
+                 else [.acq (k + 2), .rel (k + 2), .acq 1, .rel 1, .acq 0, .rel 0]
+  | .save k => if c.beaconUnderGuard then [.acq (k + 2), .acq 0, .rel 0, .rel (k + 2)]
+               else [.acq (k + 2), .rel (k + 2), .acq 0, .rel 0]
+  | .idle => []
+
+/-- No reachable state of any assignment of requests to threads is a deadlock. -/
+def DeadlockFree (c : LockCfg) : Prop :=
+  ∀ (reqs : Nat → Req) (sched : List Nat) (s : LockOrder.St),
+    LockOrder.run (LockOrder.init (fun t => prog c (reqs t))) sched = some s → ¬ LockOrder.Stuck s
+
+/-- guards first: a guard ranks below the beacon locks -/
+def rankGuardFirst (l : Nat) : Nat := if l < 2 then 1 else 0
+/-- beacon locks first -/
+def rankBeaconFirst (l : Nat) : Nat := if l < 2 then 0 else 1
+
+open Hv.LockOrder in
+private theorem ordered_guardEach (rank : Nat → Nat) (ks : List Nat) : Ordered rank [] (guardEach ks) := by
+  induction ks with
+  | nil => exact .nil
+  | cons k ks ih =>
+    refine .acq (by simp) (.rel (by simp) ?_)
+    simpa using ih
+
+open Hv.LockOrder in
+private theorem ordered_try_pass (rank : Nat → Nat) (b : Nat) (hb : b < 2) (ks : List Nat) :
+    Ordered rank [b] (passBody false ks ++ [Op.rel b]) := by
+  induction ks with
+  | nil => exact .rel (by simp) (by simpa using Ordered.nil)
+  | cons k ks ih =>
+    have hne : (b != k + 2) = true := by simp; omega
+    refine .try (.rel (by simp) ?_) (by simpa [passBody] using ih)
+    simpa [List.filter, hne] using ih
+
+open Hv.LockOrder in
+private theorem ordered_wait_pass (b : Nat) (hb : b < 2) (ks : List Nat) :
+    Ordered rankBeaconFirst [b] (passBody true ks ++ [Op.rel b]) := by
+  induction ks with
+  | nil => exact .rel (by simp) (by simpa using Ordered.nil)
+  | cons k ks ih =>
+    have hne : (b != k + 2) = true := by simp; omega
+    refine .acq ?_ (.rel (by simp) ?_)
+    · intro h hh
+      simp at hh; subst hh
+      have : ¬ k + 2 < 2 := by omega
+      simp [rankBeaconFirst, hb, this]
+    · simpa [List.filter, hne] using ih
+
+open Hv.LockOrder in
+theorem ordered_guardFirst (bug : Bool) (r : Req) :
+    Ordered rankGuardFirst [] (prog { waitsUnderLock := false, beaconUnderGuard := bug } r) := by
+  cases r with
+  | claim ks => exact .acq (by simp) (ordered_try_pass _ 0 (by omega) ks)
+  | clone ks =>
+    refine .acq (by simp) (.rel (by simp) ?_)
+    simpa using ordered_guardEach _ ks
+  | delete k =>
+    cases bug
+    · refine .acq (by simp) (.rel (by simp) (.acq (by simp) (.rel (by simp) (.acq (by simp) (.rel (by simp) ?_)))))
+      simpa using Ordered.nil
+    · have h1 : (k + 2 != 1) = true := by simp
+      have h0 : (k + 2 != 0) = true := by simp
+      refine .acq (by simp) (.acq (by simp [rankGuardFirst]) (.rel (by simp) ?_))
+      simp only [List.filter, bne_self_eq_false, h1]
+      refine .acq (by simp [rankGuardFirst]) (.rel (by simp) ?_)
+      simp only [List.filter, bne_self_eq_false, h0]
+      refine .rel (by simp) ?_
+      simpa using Ordered.nil
+  | save k =>
+    cases bug
+    · refine .acq (by simp) (.rel (by simp) (.acq (by simp) (.rel (by simp) ?_)))
+      simpa using Ordered.nil
+    · have h0 : (k + 2 != 0) = true := by simp
+      refine .acq (by simp) (.acq (by simp [rankGuardFirst]) (.rel (by simp) ?_))
+      simp only [List.filter, bne_self_eq_false, h0]
+      refine .rel (by simp) ?_
+      simpa using Ordered.nil
+  | idle => exact .nil
+
+open Hv.LockOrder in
+theorem ordered_beaconFirst (r : Req) :
+    Ordered rankBeaconFirst [] (prog { waitsUnderLock := true, beaconUnderGuard := false } r) := by
+  cases r with
+  | claim ks => exact .acq (by simp) (ordered_wait_pass 0 (by omega) ks)
+  | clone ks => exact .acq (by simp) (ordered_wait_pass 1 (by omega) ks)
+  | delete k =>
+    refine .acq (by simp) (.rel (by simp) (.acq (by simp) (.rel (by simp) (.acq (by simp) (.rel (by simp) ?_)))))
+    simpa using Ordered.nil
+  | save k =>
+    refine .acq (by simp) (.rel (by simp) (.acq (by simp) (.rel (by simp) ?_)))
+    simpa using Ordered.nil
+  | idle => exact .nil
+
+/-- **The repaired order** (what the code does after the repair: selection passes only *try* the guards, the clone
+    passes clone outside the beacon lock; deleteHandler and Save still update the beacons under the guard):
+    guard → beacon lock is a consistent global order, so the wait-for graph is acyclic in every reachable state —
+    for any number of threads, any mix of the four request kinds and any key lists. -/
+theorem no_deadlock_repaired : DeadlockFree { waitsUnderLock := false, beaconUnderGuard := true } := by
+  intro reqs sched s hr
+  exact LockOrder.no_deadlock rankGuardFirst 1 (fun l => by unfold rankGuardFirst; split <;> omega) _
+    (fun t => ordered_guardFirst true (reqs t)) sched s hr
+
+/-- The other consistent order (beacon lock → guard): passes may wait for guards under the beacon lock as long as
+    no guard holder touches a beacon. -/
+theorem no_deadlock_beacon_first : DeadlockFree { waitsUnderLock := true, beaconUnderGuard := false } := by
+  intro reqs sched s hr
+  exact LockOrder.no_deadlock rankBeaconFirst 1 (fun l => by unfold rankBeaconFirst; split <;> omega) _
+    (fun t => ordered_beaconFirst (reqs t)) sched s hr
+
+theorem no_deadlock_neither (bug : Bool) : DeadlockFree { waitsUnderLock := false, beaconUnderGuard := bug } := by
+  intro reqs sched s hr
+  exact LockOrder.no_deadlock rankGuardFirst 1 (fun l => by unfold rankGuardFirst; split <;> omega) _
+    (fun t => ordered_guardFirst bug (reqs t)) sched s hr
+
+def lockWitnessReqs (other : Req) : Nat → Req := fun t => if t = 1 then other else if t = 2 then .claim [1] else .idle
+
+/-- **The current order deadlocks**: a delete (or an index-refreshing save) that holds the guard of record 1 and a
+    selection pass that holds the beacon lock wait for each other.  Closed witness, two threads, two steps. -/
+theorem deadlock_mixed_order (viaSave : Bool) : ¬ DeadlockFree { waitsUnderLock := true, beaconUnderGuard := true } := by
+  intro h
+  cases viaSave
+  · -- delete k1 ‖ claim: D takes the guard, then the key-index lock, releases it; S takes lock 0; both wait
+    refine h (lockWitnessReqs (.delete 1)) [1, 2, 1, 1] _ rfl ⟨⟨1, by decide⟩, fun t => ?_⟩
+    by_cases h1 : t = 1
+    · subst h1; rfl
+    · by_cases h2 : t = 2
+      · subst h2; rfl
+      · simp [LockOrder.step, LockOrder.upd, LockOrder.init, lockWitnessReqs, prog, h1, h2]
+  · refine h (lockWitnessReqs (.save 1)) [1, 2] _ rfl ⟨⟨1, by decide⟩, fun t => ?_⟩
+    by_cases h1 : t = 1
+    · subst h1; rfl
+    · by_cases h2 : t = 2
+      · subst h2; rfl
+      · simp [LockOrder.step, LockOrder.upd, LockOrder.init, lockWitnessReqs, prog, h1, h2]
+
+/-- the same inversion through the key index: deleteHandler against GetAll / the first build of a field bucket -/
+theorem deadlock_mixed_order_clone : ∃ sched s,
+    LockOrder.run (LockOrder.init (fun t => prog { waitsUnderLock := true, beaconUnderGuard := true }
+      (if t = 1 then .delete 1 else if t = 2 then .clone [1] else .idle))) sched = some s ∧ LockOrder.Stuck s := by
+  refine ⟨[1, 2], _, rfl, ⟨1, by decide⟩, fun t => ?_⟩
+  by_cases h1 : t = 1
+  · subst h1; rfl
+  · by_cases h2 : t = 2
+    · subst h2; rfl
+    · simp [LockOrder.step, LockOrder.upd, LockOrder.init, prog, h1, h2]
+
 /-! ### decision over the extracted facts -/
 
 inductive Cmp where | lt | le | unknown
@@ -272,9 +465,8 @@ structure Facts where
   reindexChecksExists : Tri
   patchChecksExists : Tri
   emptyCandMeansAll : Tri
-  /-- lock-order facts (not used by `classify`; the schedule driver uses them to predict the
-      beacon-lock / record-guard inversion): the selection pass takes record guards while holding the
-      beacon lock; deleteHandler updates the beacons while holding the record guard -/
+  /-- lock-order facts: some beacon method waits for a record guard while holding the beacon lock;
+      deleteHandler updates the beacons while holding the record guard -/
   guardUnderBeaconLock : Tri
   beaconUnderGuard : Tri
   deriving Repr
@@ -285,6 +477,15 @@ def cfgOf (f : Facts) : Cfg :=
     reindexChecksExists := f.reindexChecksExists.isYes, patchChecksExists := f.patchChecksExists.isYes,
     emptyCandMeansAll := !f.emptyCandMeansAll.isNo }
 
+def lockCfgOf (f : Facts) : LockCfg :=
+  { waitsUnderLock := !f.guardUnderBeaconLock.isNo, beaconUnderGuard := !f.beaconUnderGuard.isNo }
+
+/-- the full statement: safe claims and no deadlock between beacon locks and record guards -/
+def HoldsAll (f : Facts) : Prop := Holds (cfgOf f) ∧ DeadlockFree (lockCfgOf f)
+
+def lockFindings (c : LockCfg) : List String :=
+  if c.waitsUnderLock && c.beaconUnderGuard then ["C11-claim-delete-deadlock"] else []
+
 def classify (f : Facts) : Verdict :=
   if f.selectUnderLock = .unknown then .undetermined "claim.selectUnderLock" else
   if f.counterCmp = .unknown then .undetermined "claim.counterCmp" else
@@ -293,11 +494,21 @@ def classify (f : Facts) : Verdict :=
   if f.reindexChecksExists = .unknown then .undetermined "patchExpired.reindexChecksExists" else
   if f.patchChecksExists = .unknown then .undetermined "patchExpired.patchChecksExists" else
   if f.emptyCandMeansAll = .unknown then .undetermined "shiftMatching.emptyCandMeansAll" else
-  match findings (cfgOf f) with
+  if f.guardUnderBeaconLock = .unknown then .undetermined "claim.guardUnderBeaconLock" else
+  if f.beaconUnderGuard = .unknown then .undetermined "delete.beaconUnderGuard" else
+  match findings (cfgOf f) ++ lockFindings (lockCfgOf f) with
   | [] => if cfgOf f = good then .holds else .undetermined "no theorem covers this combination of facts"
   | fs => .violated fs
 
-theorem classify_sound (f : Facts) : (classify f).Sound (Holds (cfgOf f)) (HoldsPartial (cfgOf f)) := by
+theorem deadlockFree_of_no_findings (c : LockCfg) (h : lockFindings c = []) : DeadlockFree c := by
+  obtain ⟨w, b⟩ := c
+  cases w
+  · exact no_deadlock_neither b
+  · cases b
+    · exact no_deadlock_beacon_first
+    · simp [lockFindings] at h
+
+theorem classify_sound (f : Facts) : (classify f).Sound (HoldsAll f) (HoldsPartial (cfgOf f)) := by
   unfold classify
   split; · trivial
   split; · trivial
@@ -306,13 +517,25 @@ theorem classify_sound (f : Facts) : (classify f).Sound (Holds (cfgOf f)) (Holds
   split; · trivial
   split; · trivial
   split; · trivial
+  split; · trivial
+  split; · trivial
   split
-  · split
+  · rename_i hnil
+    have hn := List.append_eq_nil_iff.mp hnil
+    split
     · rename_i hg
-      show Holds (cfgOf f)
-      rw [hg]; exact claims_safe
+      show Holds (cfgOf f) ∧ DeadlockFree (lockCfgOf f)
+      exact ⟨by rw [hg]; exact claims_safe, deadlockFree_of_no_findings _ hn.2⟩
     · trivial
   · rename_i fs hne
-    exact ⟨refutes_of_findings _ (fun he => hne he), holds_partial _⟩
+    refine ⟨fun hh => ?_, holds_partial _⟩
+    by_cases h1 : findings (cfgOf f) = []
+    · have h2 : lockFindings (lockCfgOf f) ≠ [] := fun h2 => hne (by rw [h1, h2]; rfl)
+      have hc : lockCfgOf f = { waitsUnderLock := true, beaconUnderGuard := true } := by
+        generalize lockCfgOf f = c at h2
+        obtain ⟨w, b⟩ := c
+        cases w <;> cases b <;> simp [lockFindings] at h2 ⊢
+      exact deadlock_mixed_order false (hc ▸ hh.2)
+    · exact refutes_of_findings _ h1 hh.1
 
 end Hv.C11
